@@ -76,6 +76,15 @@ def gen_module(rnd, name, collide=None, salt=0):
         b, c = body(0, False)
         lines += ["from ptera import tooled as _tooled", "@_tooled", "def pre0(x):"] + b + [""]
         descs.append({"call": "pre0({x})", "target": "pre0", "by_name": "pre0", "k": c, "kind": "tooled-decorator"})
+    # tooled in place (decorator form or a later call): the function object stays, its code is the
+    # fully instrumented one, and ptera keeps a helper copy that shares that code (r7 seeded change)
+    if rnd.random() < 0.5:
+        b, c = body(0, False)
+        if rnd.random() < 0.5:
+            lines += ["from ptera import tooled as _tooled2", "@_tooled2.inplace", "def inp0(x):"] + b + [""]
+        else:
+            lines += ["from ptera import tooled as _tooled2", "def inp0(x):"] + b + ["", "_tooled2.inplace(inp0)", ""]
+        descs.append({"call": "inp0({x})", "target": "inp0", "by_name": "inp0", "k": c, "kind": "tooled-inplace"})
     # class with methods
     b, c = body(4, True)
     lines += ["class K:", "    def meth(self, x):"] + b
@@ -194,7 +203,7 @@ def run_history(mod, descs, ops, res):
             n = sum(1 for a in active if a["fi"] == fi)
             st = getattr(t, "__ptera_stack__", None)
             ic = st.instrument_count if st else 0
-            if descs[fi]["kind"] == "tooled-decorator":
+            if descs[fi]["kind"] in ("tooled-decorator", "tooled-inplace"):
                 # a fully tooled function is left as it is by probes: no variants, no counts
                 if st is not None or t.__code__ is not orig[fi]:
                     problems.append({"after": where, "problem": f"{descs[fi]['target']}: a fully tooled function got a variant stack / another code object"})
